@@ -26,9 +26,19 @@ type LoopSpec struct {
 	Decreases *Clause
 }
 
-type GhostUpdate struct { // ghost assignment attached to the return of a function (or a loop)
+type GhostUpdate struct { // ghost assignment executed at every return of the function
 	Target CExpr
 	Value  CExpr
+	Src    string
+	Where  string
+}
+
+// GhostField is specification-only state attached to objects of a Go type.
+type GhostField struct {
+	Type  string // Go type name (unqualified or pkg.Name)
+	Name  string
+	Sort  string // int | bool | ref | set
+	Where string
 }
 
 type FuncContract struct {
@@ -50,6 +60,7 @@ type FuncContract struct {
 	Where      string
 	Results    []string // names for results in ensures (default ret / ret0, ret1 ...)
 	Fresh      bool
+	Ghost      []GhostUpdate // ghost assignments executed at every return
 }
 
 func (c *FuncContract) FullName() string {
@@ -87,10 +98,11 @@ type ContractSet struct {
 	Axioms    []*Axiom
 	Units     map[string][]string // unit -> props
 	Files     []string
+	Ghosts    map[string]*GhostField // "Type.field"
 }
 
 func newContractSet() *ContractSet {
-	return &ContractSet{Funcs: map[string]*FuncContract{}, Preds: map[string]*Pred{}, SpecFuncs: map[string]*SpecFunc{}, Units: map[string][]string{}}
+	return &ContractSet{Funcs: map[string]*FuncContract{}, Preds: map[string]*Pred{}, SpecFuncs: map[string]*SpecFunc{}, Units: map[string][]string{}, Ghosts: map[string]*GhostField{}}
 }
 
 var (
@@ -201,6 +213,13 @@ func (cs *ContractSet) loadContractFile(path, pkgPath string) error {
 				pend = &pending{"pred", arg, where}
 			case "axiom":
 				pend = &pending{"axiom", arg, where}
+			case "ghostfield":
+				fs := strings.Fields(arg)
+				if len(fs) != 2 || !strings.Contains(fs[0], ".") {
+					return fmt.Errorf("%s: verif:ghostfield Type.name sort", where)
+				}
+				i := strings.LastIndex(fs[0], ".")
+				cs.Ghosts[fs[0]] = &GhostField{Type: fs[0][:i], Name: fs[0][i+1:], Sort: fs[1], Where: where}
 			case "specfunc":
 				if err := cs.addSpecFunc(arg); err != nil {
 					return fmt.Errorf("%s: %v", where, err)
@@ -327,6 +346,20 @@ func (cs *ContractSet) addClause(c *FuncContract, text, where string) error {
 			return err
 		}
 		c.Assigns = append(c.Assigns, es...)
+	case "ghost":
+		i := strings.Index(rest, "=")
+		if i < 0 {
+			return fmt.Errorf("bad ghost assignment %q", rest)
+		}
+		lhs, err := parseCExpr(strings.TrimSpace(rest[:i]))
+		if err != nil {
+			return err
+		}
+		rhs, err := parseCExpr(strings.TrimSpace(rest[i+1:]))
+		if err != nil {
+			return err
+		}
+		c.Ghost = append(c.Ghost, GhostUpdate{Target: lhs, Value: rhs, Src: rest, Where: where})
 	case "pure":
 		c.Pure = true
 		c.HasAssigns = true
